@@ -486,3 +486,84 @@ func init() {
 		Stubs:   stubsCommon,
 	})
 }
+
+func init() {
+	register(&CheckDef{
+		ID:    "C12",
+		Title: "Damaged bytes are detected or harmless, never served as data and never a panic",
+		Reach: []string{"done", "bit-flip", "truncated", "block-garbage", "open-detected", "open-accepted", "get-detected", "value-served", "hint-damaged", "seq-error", "random-error"},
+		Jobs: func(tier string) []JobSpec {
+			var js []JobSpec
+			add := func(name string, params map[string]int64) {
+				js = append(js, JobSpec{Name: name, Harness: "root", Func: "verifHarnessC12", Params: params, Scale: scaleDF(32), ConcCap: 300})
+			}
+			base := p("pool", 2, "klen", 1, "vlens", 2, "index", 3, "shards", 1, "blocksize", 32)
+			gmax := 16
+			if tier == "thorough" {
+				gmax = 40
+			}
+			js = append(js, JobSpec{Name: "garbage-std", Harness: "datafile", Func: "verifHarnessC12Garbage", Params: p("maxsize", gmax, "io", 0), Scale: scaleDF(32), ConcCap: 300})
+			js = append(js, JobSpec{Name: "garbage-mmap", Harness: "datafile", Func: "verifHarnessC12Garbage", Params: p("maxsize", gmax/2, "io", 1), Scale: scaleDF(32), ConcCap: 300})
+			if tier == "quick" {
+				add("k2", merge(base, p("k", 2, "ops", opPut|opDelete)))
+				add("k2-rot-bigval", merge(base, p("k", 2, "ops", opPut, "vlens", 3, "vbig", 30, "dfs_lo", 60, "dfs_hi", 90)))
+				add("k2-merge-hint", merge(base, p("k", 2, "ops", opPut|opDelete, "vlens", 1, "merge", 1)))
+				add("k1-batch", merge(base, p("k", 1, "ops", opBatch, "bmax", 2, "vlens", 1)))
+			} else {
+				add("k3", merge(base, p("k", 3, "ops", opPut|opDelete)))
+				add("k3-rot-bigval", merge(base, p("k", 3, "ops", opPut|opDelete, "vlens", 3, "vbig", 30, "dfs_lo", 60, "dfs_hi", 120)))
+				add("k3-merge-hint", merge(base, p("k", 3, "ops", opPut|opDelete, "merge", 1, "dfs_lo", 60, "dfs_hi", 120)))
+				add("k2-batch", merge(base, p("k", 2, "ops", opPut|opBatch, "bmax", 2, "vlens", 1)))
+				add("k2-btree-mmap", merge(base, p("k", 2, "ops", opPut|opDelete, "index", 1, "io", 1)))
+			}
+			js = append(js, JobSpec{Name: "witness", Harness: "root", Func: "verifHarnessC12", Params: merge(base, p("k", 1, "ops", opPut, "witness", 1)), Scale: scaleDF(32), Witness: true, ConcCap: 300})
+			return js
+		},
+		Assumptions: []string{"ideal checksum: (1) equal coverage => equal sums, (2) different coverage => different sums among the applications of a path, (3) no forgery: a value that is not itself a checksum result never equals one. CRC-32's strength (2^-32 collisions, adversarial splicing) is trusted, the repo's USE of it is decided",
+			"single-site damage: one byte XOR a symbolic non-zero mask at a solver-enumerated position, or truncation to a solver-enumerated length, or one block replaced by symbolic garbage",
+			"a truncated log may roll back to an earlier state (C03 requires exactly that): 'served as data' = a value that was once written for that key",
+			"blockSize scaled to 32 (Level 1)"},
+		Bounds: map[string]string{
+			"quick":    "garbage files of every size 0..16 with fully symbolic content through NextLogRecord/NextHintRecord/ReadRecordValue(at any offset)/ReadMergeFinRecord; databases of K=1-2 ops (Put/Delete/batch, rotated files, multi-chunk value, finished merge awaiting adoption incl. hint file and marker) with every single-site damage of every file, then Open, Get of every key, Fold, ListKeys",
+			"thorough": "garbage up to 40 bytes, K=3 histories, mmap reader",
+		},
+		Outside: "CRC-32 collisions; multi-site damage that also rewrites the checksum; adversarial splicing of valid chunks; damage while the database is open",
+		Stubs:   stubsCommon,
+	})
+}
+
+func init() {
+	register(&CheckDef{
+		ID:    "C18",
+		Title: "Hint files faithfully index the merged data files",
+		Reach: []string{"done", "hint-entry-checked", "several-output-files"},
+		Jobs: func(tier string) []JobSpec {
+			var js []JobSpec
+			add := func(name string, params map[string]int64) {
+				js = append(js, JobSpec{Name: name, Harness: "root", Func: "verifHarnessC18", Params: params, Scale: scaleDF(32)})
+			}
+			js = append(js, JobSpec{Name: "hint-codec-all-32-bit", Harness: "datafile", Func: "verifHarnessC18Codec", Params: p(), Scale: scaleDF(32)})
+			js = append(js, JobSpec{Name: "log-codec-all-64-bit", Harness: "datafile", Func: "verifHarnessC18LogCodec", Params: p(), Scale: scaleDF(32)})
+			base := p("pool", 2, "klen", 2, "vlens", 2, "index", 3, "shards", 1, "dfs_lo", 60, "dfs_hi", 120)
+			if tier == "quick" {
+				add("k3", merge(base, p("k", 3, "ops", opPut|opDelete)))
+				add("k2-batch-btree", merge(base, p("k", 2, "ops", opPut|opBatch, "bmax", 2, "vlens", 1, "index", 1)))
+				add("k2-mmap", merge(base, p("k", 2, "ops", opPut|opDelete, "io", 1)))
+			} else {
+				add("k4", merge(base, p("k", 4, "ops", opPut|opDelete)))
+				add("k3-pool3", merge(base, p("k", 3, "pool", 3, "klen", 3, "ops", opPut|opDelete, "vlens", 3, "vbig", 25)))
+				add("k3-batch", merge(base, p("k", 3, "ops", opPut|opDelete|opBatch, "bmax", 2, "vlens", 1)))
+				add("k3-mmap-skiplist", merge(base, p("k", 3, "ops", opPut|opDelete, "io", 1, "index", 2)))
+			}
+			js = append(js, JobSpec{Name: "witness", Harness: "root", Func: "verifHarnessC18", Params: merge(base, p("k", 1, "ops", opPut, "witness", 1)), Scale: scaleDF(32), Witness: true})
+			return js
+		},
+		Assumptions: []string{"blockSize scaled to 32 (Level 1)", "I/O never fails", "the codec harnesses are unbounded in the field values (all 32-bit / 64-bit values, every varint length) and bounded in key length (<= 3 bytes)"},
+		Bounds: map[string]string{
+			"quick":    "Encode/DecodeHintRecord for all 32-bit Fid/BlockID/Offset/Size and symbolic keys of 0-3 bytes; Encode/DecodeLogRecord(+Value) for all types, all 64-bit batch ids; Merge after K=2-3 ops (Put/Delete/batch) with symbolic 1-2 byte keys and DataFileSize symbolic (1-3 output files): hint entries vs records decoded at those positions, hinted key set vs scanned key set, hint-path Open vs scan-path Open (keys, values, positions incl. size)",
+			"thorough": "K=3-4, pool of 3 keys up to 3 bytes, multi-chunk values, mmap",
+		},
+		Outside: "keys longer than 3 bytes; histories longer than K",
+		Stubs:   stubsCommon,
+	})
+}
